@@ -119,6 +119,9 @@ pub fn plan_transport(rng: &mut Rng, plan: &mut Plan, sim_only: bool) {
         // inside a beatmap folder with a storyboard and another difficulty as neighbours
         plan.set("fname", 1 + rng.below(7) as i64);
     }
+    if t == T_FROM_PATH && rng.chance(1, 4) {
+        plan.set("locked", 1 + rng.below(2) as i64);
+    }
     if t == T_BUFREADER {
         let cap = if rng.chance(3, 5) { 1 + rng.below(16) } else { rng.small(8192) };
         plan.set("cap", cap as i64);
@@ -381,7 +384,20 @@ fn decode_via_inner(plan: &Plan, dec: Dec, st: &mut Stats) -> Via {
                 }
             }
             let out = match if plan.get("decoy") != 0 && !data.is_empty() { Ok(()) } else { std::fs::write(&path, data) } {
-                Ok(()) => conv(from_path_fp(dec, &path)).0,
+                Ok(()) => {
+                    // someone else may have the file open, and may hold an advisory lock on it (an editor, a sync tool):
+                    // reading it is still reading it
+                    let holder = if plan.get("locked") != 0 { std::fs::File::options().read(true).write(true).open(&path).ok() } else { None };
+                    if let Some(h) = &holder {
+                        if plan.get("locked") == 1 { let _ = h.lock(); } else { let _ = h.lock_shared(); }
+                        st.inc("realfs.file-locked-by-another-handle");
+                    }
+                    let r = conv(from_path_fp(dec, &path)).0;
+                    if let Some(h) = holder {
+                        let _ = h.unlock();
+                    }
+                    r
+                }
                 Err(_) => {
                     // the real file system failed us: not a verdict about rosu-map; fall back to from_bytes
                     st.inc("realfs.tempfile-write-failed");
